@@ -29,9 +29,12 @@ def run(ctx):
         small = [s for s in scns if s["kind"] != "reg"]
         big = [s for s in scns if s["kind"] == "reg"]
         # every (host class, tag class, digest class, component classes) combination at least once
+        # every (host lexeme, tag class, digest class) combination and every (host lexeme, component
+        # classes) combination at least once
         byclass = {}
         for s in big:
-            byclass.setdefault((s["hc"], s["tc"], s["dc"], tuple(s["pcc"])), []).append(s)
+            byclass.setdefault(("htd", s["h"], s["tc"], s["dc"]), []).append(s)
+            byclass.setdefault(("hp", s["h"], tuple(s["pcc"])), []).append(s)
         picked = [rng.choice(v) for v in byclass.values()]
         rest = rng.sample(big, 4000)
         chosen = rng.sample(small, min(len(small), 3000)) + picked + rest
